@@ -291,7 +291,8 @@ def check_property(prop, tier, seed, units, no_kani=False, verbose=False):
         'violations': vcount,
     }
     # development runs against a scratch copy (VERIF_REPO set) must not overwrite the evidence of /repo
-    evdir = 'evidence' if vx.REPO == '/repo' else 'evidence_dev'
+    # runs against scratch copies, and runs on /repo with a seeded change applied (VERIF_SEEDED_RUN), must not touch evidence/
+    evdir = 'evidence' if (vx.REPO == '/repo' and not os.environ.get('VERIF_SEEDED_RUN')) else 'evidence_dev'
     os.makedirs(os.path.join(ROOT, evdir), exist_ok=True)
     json.dump(ev, open(os.path.join(ROOT, evdir, prop + '.json'), 'w'), indent=1)
     for l in lines:
